@@ -10,12 +10,13 @@
    finite.  (c) bounds the kernel-call loops inside one operation.
    Outside the theorems: that each system call returns, OS scheduler fairness,
    and the crossbeam / thread-pool primitives themselves. *)
-From XcpModel Require Import Base ConcBlock ConcFile ConcFault CopyLoop.
-From XcpProofs Require Import ConcBlockProofs ConcFileProofs ConcFaultProofs CopyLoopProofs.
+From XcpModel Require Import Base Sparse ConcBlock ConcFile ConcFault CopyLoop Uspace.
+From XcpProofs Require Import ConcBlockProofs ConcFileProofs ConcFaultProofs CopyLoopProofs UspaceProofs ExtractedOk.
 From Coq Require Import Lia.
 From XcpModel Require Import Extracted.
 From XcpProofs Require Import PinnedSource.
-From XcpPins Require Import Pin_feedback_new Pin_parfile_copy Pin_parblock_copy Pin_main_main.
+From XcpPins Require Import Pin_feedback_new Pin_parfile_copy Pin_parblock_copy Pin_main_main Pin_paths_parse_ignore
+  Pin_parblock_queue_file_range.
 
 (* (a) parblock and parfile, with failures: some thread can always move *)
 Theorem C07_parblock_no_deadlock : forall W Q ops s, (1 <= W)%nat -> (1 <= Q)%nat ->
@@ -69,6 +70,48 @@ Theorem C07_block_job_fuel : forall fuel flen off bytes done ans,
   (length ans < fuel)%nat -> o_st (block_job fuel flen off bytes done ans) <> StOutOfFuel.
 Proof. exact block_job_fuel. Qed.
 
+(* the number of kernel requests of a block job is bounded by its block, whatever the kernel answers *)
+Theorem C07_block_job_bounded : forall fuel flen off bytes done ans,
+  (N.of_nat (length (o_trace (block_job fuel flen off bytes done ans))) <= (bytes - done) + 1)%N.
+Proof. exact block_job_steps. Qed.
+
+(* the sparse walk (parfile, sparse source) needs at most len - pos rounds for ANY answers of lseek / fstat / the
+   copy calls — including those a source that shrinks while it is copied produces (repair 61ae7c3) ... *)
+Theorem C07_copy_sparse_terminates : forall fuel bs len pos sd sh ans,
+  (N.to_nat (len - pos) < fuel)%nat -> o_st (copy_sparse fuel bs len pos sd sh ans) <> StOutOfFuel.
+Proof. exact copy_sparse_fuel. Qed.
+
+(* ... which the walk as it was before that repair did not: it spins on the answers of a shrunken source *)
+Theorem C07_copy_sparse_before_repair_refuted : exists bs len sd sh, forall fuel,
+  o_st (copy_sparse_pinned fuel bs len 0 sd sh []) = StOutOfFuel.
+Proof. exact copy_sparse_pinned_spins. Qed.
+
+(* the user-space fallbacks: at most two calls per outstanding byte (a zero-byte read is an error, not a retry);
+   EINTR retries of the cursor variant are std's and are not counted *)
+Theorem C07_copy_range_uspace_bounded : forall fuel nbytes off w ans,
+  (N.of_nat (length (u_trace (copy_range_uspace fuel nbytes off w ans))) <= 2 * (nbytes - w))%N.
+Proof. exact copy_range_uspace_steps. Qed.
+
+Theorem C07_copy_bytes_uspace_bounded : forall fuel nbytes rpos wpos w ans,
+  uans_bounded (u_trace (copy_bytes_uspace fuel nbytes rpos wpos w ans)) ->
+  (N.of_nat (length (effective (u_trace (copy_bytes_uspace fuel nbytes rpos wpos w ans)))) <= 2 * (nbytes - w))%N.
+Proof. exact copy_bytes_uspace_steps. Qed.
+
+(* ---- the loops above ARE the repository's: each is translated from the current source by xlate/ and proved equal
+   to the model, so deleting a zero-progress arm or guard re-opens the obligation ---- *)
+Theorem C07_src_copy_bytes_loop : forall fuel bs len cur ans,
+  x_copy_bytes fuel len bs cur ans = copy_bytes fuel bs len 0 cur ans.
+Proof. exact x_copy_bytes_ok. Qed.
+Theorem C07_src_copy_sparse_loop : forall fuel sd sh flen bs ans,
+  x_copy_sparse fuel sd sh flen bs ans = copy_sparse fuel bs flen 0 sd sh ans.
+Proof. exact x_copy_sparse_ok. Qed.
+Theorem C07_src_copy_range_uspace_loop : forall fuel nbytes off ans,
+  x_copy_range_uspace fuel nbytes off ans = copy_range_uspace fuel nbytes off 0 ans.
+Proof. exact x_copy_range_uspace_ok. Qed.
+Theorem C07_src_copy_bytes_uspace_loop : forall fuel nbytes rpos wpos ans,
+  x_copy_bytes_uspace fuel nbytes rpos wpos ans = copy_bytes_uspace fuel nbytes rpos wpos 0 ans.
+Proof. exact x_copy_bytes_uspace_ok. Qed.
+
 (* non-vacuity: a run in which the dispatcher fails on the second file while a
    job of the first is still queued, and a job fails: main still exits, with
    status 1 *)
@@ -88,6 +131,12 @@ Theorem C07_src_pin_parblock_copy : pin_unchanged name_parblock_copy.
 Proof. exact pin_parblock_copy. Qed.
 Theorem C07_src_pin_main_main : pin_unchanged name_main_main.
 Proof. exact pin_main_main. Qed.
+(* parse_ignore only ever opens a REGULAR .gitignore (repair ed780e1: a FIFO of that name blocked the open forever) *)
+Theorem C07_src_pin_paths_parse_ignore : pin_unchanged name_paths_parse_ignore.
+Proof. exact pin_paths_parse_ignore. Qed.
+(* the block-job closure (its zero-progress arms) *)
+Theorem C07_src_pin_parblock_queue_file_range : pin_unchanged name_parblock_queue_file_range.
+Proof. exact pin_parblock_queue_file_range. Qed.
 
 Print Assumptions C07_parblock_no_deadlock.
 Print Assumptions C07_parfile_no_deadlock.
@@ -104,3 +153,14 @@ Print Assumptions C07_src_pin_feedback_new.
 Print Assumptions C07_src_pin_parfile_copy.
 Print Assumptions C07_src_pin_parblock_copy.
 Print Assumptions C07_src_pin_main_main.
+Print Assumptions C07_block_job_bounded.
+Print Assumptions C07_copy_sparse_terminates.
+Print Assumptions C07_copy_sparse_before_repair_refuted.
+Print Assumptions C07_copy_range_uspace_bounded.
+Print Assumptions C07_copy_bytes_uspace_bounded.
+Print Assumptions C07_src_copy_bytes_loop.
+Print Assumptions C07_src_copy_sparse_loop.
+Print Assumptions C07_src_copy_range_uspace_loop.
+Print Assumptions C07_src_copy_bytes_uspace_loop.
+Print Assumptions C07_src_pin_paths_parse_ignore.
+Print Assumptions C07_src_pin_parblock_queue_file_range.
